@@ -110,3 +110,56 @@ func (st *State) fvWriteCheck(p PtrV, site ssa.Instruction) {
 		st.oblige("guard", fmt.Sprintf("captured-write:%s#%d", name, vc.ordinals[site]), tFalse, "store to the captured variable "+name+" in a closure that runs on several goroutines at once")
 	}
 }
+
+// atomicRuleViolations: "type T: atomic f, g" declares fields that several goroutines access without a lock and that are therefore
+// required to have a sync/atomic type (all their accesses are then atomic by construction). Returns one message per broken declaration.
+func (env *Env) atomicRuleViolations() (checked int, bad []string) {
+	for _, td := range env.cs.Types {
+		for _, c := range td.Clauses {
+			if c.Kw != "atomic" {
+				continue
+			}
+			st := env.findStruct(td.Pkg, td.Name)
+			for _, f := range strings.Split(c.Text, ",") {
+				f = strings.TrimSpace(f)
+				if f == "" {
+					continue
+				}
+				checked++
+				if st == nil {
+					bad = append(bad, td.Pkg+"."+td.Name+"."+f+": type not found")
+					continue
+				}
+				found := false
+				for i := 0; i < st.NumFields(); i++ {
+					if st.Field(i).Name() != f {
+						continue
+					}
+					found = true
+					n, ok := types.Unalias(st.Field(i).Type()).(*types.Named)
+					if !ok || n.Obj().Pkg() == nil || n.Obj().Pkg().Path() != "sync/atomic" {
+						bad = append(bad, td.Pkg+"."+td.Name+"."+f+": declared atomic but has type "+st.Field(i).Type().String())
+					}
+				}
+				if !found {
+					bad = append(bad, td.Pkg+"."+td.Name+"."+f+": no such field")
+				}
+			}
+		}
+	}
+	return
+}
+
+func (env *Env) findStruct(pkg, name string) *types.Struct {
+	for _, p := range env.w.Pkgs {
+		if p.Types == nil || shortPkg(p.Types.Path()) != pkg {
+			continue
+		}
+		if obj := p.Types.Scope().Lookup(name); obj != nil {
+			if st, ok := obj.Type().Underlying().(*types.Struct); ok {
+				return st
+			}
+		}
+	}
+	return nil
+}
